@@ -350,10 +350,30 @@ Record obs := { ob_reg : list (N * list N); ob_gor : list nat }.
 Definition total (v : variant) (s : st) (nodes : list N) (g : site) : nat :=
   sum (fun n => goroutines v s g n) nodes.
 
+(* A QUIC connection may also end for reasons outside this model (its idle timeout under a
+   scheduling stall; an accepted side is closed by receptor itself when a "service unknown" for
+   the peer arrives after the peer's socket has gone).  That only ever releases resources, so an
+   observation is accepted when it lies between the model without any connection (lower bound)
+   and the model with every connection that nothing has ended (upper bound: anything above it
+   is a leak). *)
+Definition without_conns (s : st) : st := set_conns s [].
+
+Fixpoint subl (a b : list N) {struct b} : bool :=      (* sorted a is a sub-multiset of sorted b *)
+  match b with
+  | [] => match a with [] => true | _ => false end
+  | y :: b' => match a with
+               | [] => true
+               | x :: a' => if x =? y then subl a' b' else if y <? x then subl a b' else false
+               end
+  end.
+
 Definition obs_ok (v : variant) (s : st) (nodes : list N) (o : obs) : bool :=
-  forallb (fun r => beq_nl (nsort (registry v s (fst r))) (nsort (snd r))) (ob_reg o)
+  forallb (fun r => let seen := nsort (snd r) in
+                    subl (nsort (registry v (without_conns s) (fst r))) seen
+                    && subl seen (nsort (registry v s (fst r)))) (ob_reg o)
   && Nat.eqb (length (ob_reg o)) (length nodes)
-  && forallb (fun p => Nat.eqb (total v s nodes (fst p)) (snd p)) (combine all_sites (ob_gor o))
+  && forallb (fun p => Nat.leb (total v (without_conns s) nodes (fst p)) (snd p)
+                       && Nat.leb (snd p) (total v s nodes (fst p))) (combine all_sites (ob_gor o))
   && Nat.eqb (length (ob_gor o)) (length all_sites).
 
 (* a history: operations with what the implementation answered (true = performed, false =
